@@ -8,6 +8,7 @@ from . import rules_keymaps as K
 from . import rules_rounding as RR
 from . import rules_cache as S
 from . import rules_archives as A
+from . import rules_inspect as G
 
 TECH = 'static analysis: exhaustive path enumeration with typed exception edges over the decorator closures (ast), def-use normal forms, who-may-call rules'
 
@@ -163,6 +164,7 @@ def check_C09(ctx, tier):
     K.rule_K_ORDER(ctx, ctx.repo)
     K.rule_K_DISPATCH(ctx, ctx.repo)
     K.rule_K_OWN(ctx, ctx.repo)
+    G.rule_G(ctx, ctx.repo, want=('G-VAL', 'G-PREC'))
     for d, paths in _wrappers(ctx, tier):
         W.setup_abbrev(d)
         W.rule_W_KEY(ctx, d, paths)
@@ -178,6 +180,7 @@ def check_C10(ctx, tier):
     K.rule_K_DISPATCH(ctx, ctx.repo)
     K.rule_K_FAST(ctx, ctx.repo)
     K.rule_K_OWN(ctx, ctx.repo)
+    G.rule_G(ctx, ctx.repo, want=('G-VAL', 'G-PREC'))
     ctx.assume('injectivity of repr/str/pickle of the argument values and fast-type unwrapping collisions are not decided')
     return ('Every positional argument and every (name, value) keyword item reaches the key whole on every path of keymap.encode/encrypt; '
             'typed keys append the types of all positional and all keyword values; a configured sentinel separates every two adjacent '
